@@ -47,12 +47,17 @@ def register(R, tier="quick"):
         return fn
     def make06(tier_, seed):
         out = make("C01")(tier_, seed)
+        # scores are compared with a reference scorer that only knows whole-index statistics: a score mismatch on a corpus
+        # without deletions is a dependence on the segment layout
+        sc = make("C09")(tier_, seed)
+        out["failures"] = list(out["failures"]) + [f for f in sc["failures"]
+                                                    if f["case"].startswith("C09-score") and not (f.get("corpus") or {}).get("deleted")]
         for f in out["failures"]:
             f["case"] = "C06-" + f["case"]
         return out
     R.bounded_check("matchers-bounded@C06", ["C06"], make06,
                     bound="the C01 cases of matchers-bounded (result set of every query kind over corpora split into 1-3 segments with "
-                          "posting blocks of 1-16 entries)",
+                          "posting blocks of 1-16 entries) and its score cases on corpora without deletions",
                     note="C06: the result set of every query is independent of segment layout and block structure")
     for prop in ("C01", "C05", "C09", "C11", "C12"):
         R.bounded_check("matchers-bounded@" + prop, [prop], make(prop),
